@@ -532,6 +532,7 @@ def m_reduce(interp, args, kwargs):
     if isinstance(src, SList):
         from . import loops
         return loops.reduce_slist(interp, f, src, args[2:] if len(args) > 2 else None)
+    _count_reduce_site(interp)
     it = interp.iterate(src)
     if len(args) > 2:
         acc = args[2]
@@ -809,3 +810,74 @@ class SMap:
         if default:
             return default[0]
         raise _pyraise(KeyError('<symbolic>'))
+
+
+# ============================================================================ quantifiers (spec level)
+
+def _quant(interp, args, is_forall):
+    lo, hi, pred = args
+    st = interp.st
+    j = st.fresh_int('j')
+    lo_t, hi_t = to_z3(lo), to_z3(hi)
+    rng = z3.And(lo_t <= j, j < hi_t)
+    st.no_fork += 1
+    n_pc = len(st.pc)
+    st.solver.push()
+    try:
+        with st.scope(rng):
+            if st.check() == z3.unsat:
+                body = True if is_forall else False
+            else:
+                body = interp.truth(interp.call(pred, [SInt(j)], {}))
+    finally:
+        st.no_fork -= 1
+        st.solver.pop()
+        learned = st.pc[n_pc:]
+        del st.pc[n_pc:]
+    # facts assumed about the element at the arbitrary index j hold for every index
+    # (forall-introduction: j was fresh and constrained only by the range, which each fact carries)
+    for t in learned:
+        st._add(z3.ForAll([j], t) if _mentions(t, j) else t)
+    bt = to_z3(body)
+    if is_forall:
+        return wrap(z3.ForAll([j], z3.Implies(rng, bt)))
+    return wrap(z3.Exists([j], z3.And(rng, bt)))
+
+
+def _mentions(t, c):
+    seen = set()
+    todo = [t]
+    while todo:
+        x = todo.pop()
+        if x.get_id() in seen:
+            continue
+        seen.add(x.get_id())
+        if x.eq(c):
+            return True
+        if z3.is_quantifier(x):
+            todo.append(x.body())
+        else:
+            todo.extend(x.children())
+    return False
+
+
+def q_forall(interp, args, kwargs):
+    return _quant(interp, args, True)
+
+
+def q_exists(interp, args, kwargs):
+    return _quant(interp, args, False)
+
+
+def m_is_opaque(interp, args, kwargs):
+    return isinstance(args[0], Opaque)
+
+
+def _count_reduce_site(interp):
+    """Every reduce() call of a repository frame has an ordinal (for call-site loop specs)."""
+    for fr in reversed(interp.frame_stack):
+        if not fr.info.filename.endswith('functools_model.py'):
+            k = getattr(fr, 'reduce_counter', 0)
+            fr.reduce_counter = k + 1
+            return fr, k
+    return None, 0
